@@ -32,7 +32,8 @@ import (
 
 const rule = "the document has at least one attribute and the operation sequence runs an operation on an " +
 	"attribute position or makes a successful sibling move (MoveToNext/Previous/First); for expressions: the " +
-	"document has at least one attribute and the expression uses the attribute axis, a sibling/following/preceding axis or a positional predicate"
+	"document has at least one attribute and the expression uses the attribute axis, a sibling/following/preceding axis or a positional predicate; " +
+	"for query sequences: at least one query of the sequence selects a node"
 
 type runner struct {
 	o   *vh.Opts
@@ -46,6 +47,7 @@ func (rn *runner) runOpsCase(d *docCtx, c *opsCase, verbose bool) *opsOutcome {
 		rn.sum.Fail("replay: start node not in document", c, nil)
 		return nil
 	}
+	vh.Current(rn.o, c)
 	out := runOps(d, k, c.Ops, c.Repaired)
 	if verbose {
 		for i := range out.xres {
@@ -57,6 +59,7 @@ func (rn *runner) runOpsCase(d *docCtx, c *opsCase, verbose bool) *opsOutcome {
 		return out
 	}
 	if out.failAt >= 0 {
+		vh.Current(rn.o, c)
 		fc := *c
 		fc.Ops = shrinkOps(d, k, c.Ops[:out.failAt+1], out.failWhat, c.Repaired)
 		o2 := runOps(d, k, fc.Ops, c.Repaired)
@@ -69,6 +72,7 @@ func (rn *runner) runOpsCase(d *docCtx, c *opsCase, verbose bool) *opsOutcome {
 }
 
 func (rn *runner) runExprCase(d *docCtx, c *exprCase, verbose bool) *exprOutcome {
+	vh.Current(rn.o, c)
 	out := evalExpr(d, c)
 	if verbose {
 		b, _ := json.MarshalIndent(out, "", " ")
@@ -78,6 +82,18 @@ func (rn *runner) runExprCase(d *docCtx, c *exprCase, verbose bool) *exprOutcome
 		rn.sum.Fail(out.bad, c, out)
 	}
 	return out
+}
+
+// failDoc reports a document on which the two trees differ, with the xpath-level witness if the
+// probes found one.
+func (rn *runner) failDoc(text string, err error) {
+	c := map[string]interface{}{"kind": "doc", "doc": text}
+	if se, ok := err.(*shapeErr); ok && se.probe != nil {
+		rn.sum.Fail("expression values differ (the node tree and the reference DOM of this document differ in shape)",
+			c, map[string]interface{}{"expr": se.probe.Expr, "idr_value": se.probe.IdrVal, "reference_value": se.probe.RefVal, "shape": se.msg})
+		return
+	}
+	rn.sum.Fail("document is not read alike by both parsers", c, err.Error())
 }
 
 // replayFile re-runs one stored case (a bin/check replay file, or a bare corpus case).
@@ -104,7 +120,10 @@ func (rn *runner) replayFile(p string, verbose bool) {
 	}
 	d, err := parseBoth(kind.Doc)
 	if err != nil {
-		rn.sum.Fail("document is not read alike by both parsers", map[string]string{"kind": "doc", "doc": kind.Doc}, err.Error())
+		rn.failDoc(kind.Doc, err)
+		if verbose {
+			fmt.Println(err)
+		}
 		return
 	}
 	rn.sum.Evaluations++
@@ -117,6 +136,10 @@ func (rn *runner) replayFile(p string, verbose bool) {
 		var c exprCase
 		_ = json.Unmarshal(raw, &c)
 		rn.runExprCase(d, &c, verbose)
+	case "seq":
+		var c seqCase
+		_ = json.Unmarshal(raw, &c)
+		rn.runSeq(d, &c, verbose)
 	}
 }
 
@@ -193,6 +216,27 @@ func main() {
 	sum.Extra["reference_normalisation"] = "xmlquery.Parse output: DeclarationNode removed, CharDataNode retyped TextNode (harness/cmd/c11/gen.go normaliseRef)"
 
 	r := vh.NewRng(o.Seed)
+	// ---- (c) sequences of string-API queries through the expression cache ----
+	nseq := o.Count(120, 4000)
+	for si := 0; si < nseq && *only == ""; si++ {
+		c := genSeqCase(r, si)
+		d, err := parseBoth(c.Doc)
+		if err != nil {
+			rn.failDoc(c.Doc, err)
+			continue
+		}
+		hit := rn.runSeq(d, c, false)
+		sum.Count("seq|"+c.Doc+"|"+strings.Join(c.Exprs, "|"), hit > 0)
+		sum.Hist("seq:sequences")
+		sum.Hist(fmt.Sprintf("seq:queries-selecting-something=%d..", hit/4*4))
+		if si == 0 {
+			sum.Sample(c)
+		}
+		if len(sum.Failures) >= 20 {
+			break
+		}
+	}
+
 	ndocs := o.Count(360, 12000)
 	const seqPerDoc, coqRunsPerDoc, exprPerDoc = 10, 3, 22
 	exprFeat := map[string]bool{}
@@ -200,7 +244,7 @@ func main() {
 		text, groot, feat := genDoc(r)
 		d, err := parseBoth(text)
 		if err != nil {
-			sum.Fail("document is not read alike by both parsers", map[string]string{"kind": "doc", "doc": text}, err.Error())
+			rn.failDoc(text, err)
 			continue
 		}
 		ge, ga := groot.counts()
